@@ -36,8 +36,9 @@ from vf.core import Clause, HarnessError, LibError, Violation, sut
 PROPERTY_ID = "C14"
 RULE = (
     "Registry of operators / accessors / helpers / constructors / MR functions compiled from the class bodies; the "
-    "entry is drawn uniformly inside the case, operands are Hypothesis-generated poses (six-vectors with rotation "
-    "angle <= pi-1e-3, |p|<=10, built through ten different construction routes: list, array, column, 4x4 matrix, "
+    "entry is drawn inside the case (uniformly, the two fmin-based helpers a third as often), operands are "
+    "Hypothesis-generated poses (six-vectors with rotation angle <= 3.12 < pi, |p_i|<=10, 1/6 special poses incl. "
+    "the identity, built through ten different construction routes: list, array, column, 4x4 matrix, "
     "copy(), copy constructor, sTM, sTAA, item assignment, product), screws/wrenches/twists with no / own / equal / "
     "SHARED frame objects, ndarrays of every shape the method documents, ints, floats, dual scalars, and the same "
     "object in both operand positions. Non-trivial: (value mode) at least one ndarray of the result was really "
